@@ -38,6 +38,7 @@ NOTES = {
  "C02b": "round 2; first missed; rule C02 R5 (every typed page resource is written unless the skip is decided on its content bytes) added",
  "C10b": "round 2; first missed; rule C09/C10 S3 (octal escapes are {:03o}) added",
  "C13b": "round 2; first missed; rule C13 R4 (no value filter between the width table and the /W builder) added",
+ "C14b": "round 2; first missed; rule C14 R6 (the output of split_by_sentences is fed through the accumulator: a direct push only after a flush) added",
  "C15b": "round 2; first missed; rule C15 R4 (enumerate() directly over the page list) added",
  "C16b": "round 2; first missed; rule C16 R6 (the complete key list reaches collision_font_mapping) added",
  "C17b": "round 2; first missed; rule C17 R5 (every edit of a batch is written: the latest wins) added",
